@@ -43,6 +43,10 @@ def enumerate_vectors(ctx, fams, full):
 def run_vectors(ctx, vecs, conc, framed=True, name="vec", fifo_every=0):
     binp = ctx.go_build("./cmd/sshdvec")
     vp = ctx.path("vectors-%s.jsonl" % name)
+    # the long-lived processor sees the forms mixed (seeded shuffle), not grouped as TLC printed them
+    import random
+    vecs = list(vecs)
+    random.Random(ctx.seed).shuffle(vecs)
     with open(vp, "w") as f:
         for v in vecs:
             f.write(json.dumps(v) + "\n")
